@@ -91,7 +91,67 @@ REGRESSION_CASES = [
      "lv": {"c1": 0}, "maps": {}, "init": {"c1": []}, "map_kinds": ["regression"]},
     {"base": {"params": {"p20": 1}, "dpars": [], "vars": {"c1": 4, "c2": 1}, "dvars": [], "rxns": [("v40", "FProd", ["c1", "p20"], {"c1": -1, "c2": 1})]},
      "lv": {"c1": 0, "c2": 1}, "maps": {"v40": [0]}, "init": {"c1": 0, "c2": 0}, "map_kinds": ["regression"]},
+    # witnesses of c05-homodimer / c05-labelled-modifier (dict form of the renaming block; repaired by fixes/C05-homodimer.diff):
+    # recorded findings while the tree has the dict form, ordinary judged cases afterwards
+    {"base": {"params": {"p20": 1}, "dpars": [], "vars": {"c1": 4, "c2": 0}, "dvars": [], "rxns": [("v40", "FProd", ["c1", "c1", "p20"], {"c1": -2, "c2": 1})]},
+     "lv": {"c1": 1, "c2": 2}, "maps": {"v40": [0, 1]}, "init": None, "map_kinds": ["regression"],
+     "states": [{"c1__0": 3, "c1__1": 1, "c2__00": 0, "c2__01": 0, "c2__10": 0, "c2__11": 0}]},
+    {"base": {"params": {"p20": 1}, "dpars": [], "vars": {"c1": 2, "c2": 0, "c3": 3}, "dvars": [], "rxns": [("v40", "FProd", ["c1", "c3", "p20"], {"c1": -1, "c2": 1})]},
+     "lv": {"c1": 1, "c2": 1, "c3": 1}, "maps": {"v40": [0]}, "init": None, "map_kinds": ["regression"],
+     "states": [{"c1__0": 1, "c1__1": 1, "c2__0": 0, "c2__1": 0, "c3__0": 2, "c3__1": 1}]},
+    # corpus: reversible mass-action laws written as one reaction (the rate takes its own product), balanced sides and
+    # permutation maps -- in -> A <-> B, E + B <-> C (3-cycle), C -> out; and a merge declared in non-alphabetical order
+    {"base": {"params": {"p20": 1, "p21": 2, "p22": 3}, "dpars": [], "vars": {"c1": 1, "c2": 2, "c3": 1, "c4": 3}, "dvars": [],
+              "rxns": [("v40", "FProd", ["p20"], {"c1": 1}), ("v41", L.REV1, ["c1", "c2", "p21", "p20"], {"c1": -1, "c2": 1}),
+                       ("v42", L.REV2, ["c3", "c2", "c4", "p22", "p21"], {"c3": -1, "c2": -1, "c4": 1}), ("v43", "FProd", ["c4", "p20"], {"c4": -1})]},
+     "lv": {"c1": 2, "c2": 2, "c3": 1, "c4": 3}, "maps": {"v40": [0, 1], "v41": [1, 0], "v42": [2, 0, 1], "v43": [0, 1, 2]},
+     "init": {"c1": [0]}, "map_kinds": ["corpus-reversible"]},
+    {"base": {"params": {"p20": 2, "p21": 1}, "dpars": [], "vars": {"c1": 2, "c2": 1, "c3": 1}, "dvars": [],
+              "rxns": [("v40", L.REV1, ["c2", "c3", "c1", "p20", "p21"], {"c3": 1, "c2": -1, "c1": 1})]},
+     "lv": {"c1": 1, "c2": 2, "c3": 1}, "maps": {"v40": [1, 0]}, "init": None, "map_kinds": ["corpus-reversible"]},
 ]
+
+
+def gen_rev_case(rng) -> dict:
+    """Networks around reversible mass-action reactions (one reaction, rate kf*S.. - kr*P..) with matching numbers of label
+    positions on both sides and permutation maps (the class in which the dynamics clause holds), sometimes a duplicating map
+    or unequal sides (recorded finding c05-reversible-unbalanced)."""
+    shape = rng.choice(["11", "11", "21", "12", "22"])
+    ns, np_ = int(shape[0]), int(shape[1])
+    ids = rng.sample(range(1, 9), ns + np_ + 1)
+    cp = [f"c{i}" for i in ids]
+    subs, prods, by = cp[:ns], cp[ns:ns + np_], cp[-1]
+    lv: dict[str, int] = {}
+    total = rng.choice([1, 2, 2, 3, 3])
+    for side in (subs, prods):  # split `total` positions over the compounds of the side
+        cuts = sorted(rng.randint(0, total) for _ in range(len(side) - 1))
+        parts = [b - a for a, b in zip([0, *cuts], [*cuts, total])]
+        for c, n in zip(side, parts):
+            if n > 0 or rng.random() < 0.3:
+                lv[c] = n
+    unbalanced = rng.random() < 0.12
+    if unbalanced:
+        lv[rng.choice(prods)] = lv.get(prods[0], 0) + 1
+    if rng.random() < 0.5:
+        lv[by] = rng.choice([1, 2])
+    params = {"p20": rng.randint(1, 3), "p21": rng.randint(1, 3), "p22": rng.randint(1, 2)}
+    st_items = [(c, -1) for c in subs] + [(c, 1) for c in prods]
+    if rng.random() < 0.5:
+        rng.shuffle(st_items)  # declaration order of the stoichiometry is not the argument order
+    rxns = [("v40", L.REV1 if ns == 1 else L.REV2, [*subs, *prods, "p20", "p21"], dict(st_items))]
+    feed = rng.choice(subs)
+    rxns.insert(0, ("v39", "FProd", ["p22"], {feed: 1}))
+    drain = rng.choice(prods)
+    args = [drain, "p22"] if rng.random() < 0.6 else [drain, by, "p22"]  # the bystander as (possibly labelled) modifier
+    rxns.append(("v41", "FProd", args, {drain: -1}))
+    base = {"params": params, "dpars": [], "vars": {c: rng.randint(0, 4) for c in cp}, "dvars": [], "rxns": rxns}
+    maps, kinds = {}, []
+    for name, _fk, _args, st in rxns:
+        tsl, tpl = L.label_totals(lv, st)
+        m, k = L.gen_map(rng, tsl, tpl, "dup" if (name == "v40" and rng.random() < 0.06) else rng.choice(["perm", "perm", "id"]))
+        maps[name] = m
+        kinds.append("rev-" + k if name == "v40" else k)
+    return {"base": base, "lv": lv, "maps": maps, "init": None, "map_kinds": kinds}
 
 
 def exhaustive_cases(thorough: bool):
@@ -130,10 +190,23 @@ def gen_state(rng, names: list[str]) -> dict[str, int]:
 
 
 def classify(case: dict) -> dict:
-    """Which parts of the property apply to this input (documented domain)."""
+    """Which parts of the property apply to this input (documented domain) and which recorded findings it touches.
+
+    mass-action class (the dynamics clause is judged):
+      * irreversible: rate = product of its arguments, the compound arguments are exactly the substrate side (every unit
+        once) plus compounds that take no part in the reaction (modifiers, labelled or not);
+      * reversible, written as one reaction: rate = kf * substrates - kr * products with the compound arguments exactly the
+        substrate side followed by the product side.
+    Recorded findings (a failure of the dynamics clause on such a case is attributed to the finding while it is listed):
+      homodimer          a labelled compound stands more than once on one side and in the rate
+      labelled_modifier  a labelled compound (>= 1 position) enters the rate of a mapped reaction without taking part in it
+      rev_unbalanced     reversible law whose substrate patterns do not correspond one-to-one to the product patterns
+                         (different numbers of label positions on the two sides, or the map is not a permutation)
+    """
     base, lv, maps = case["base"], case["lv"], case["maps"]
     rx = {r[0]: r for r in base["rxns"]}
-    info = {"short": [], "outside": [], "homodimer": [], "nonmass": [], "unmapped_touch": [], "zero_init": []}
+    info = {"short": [], "outside": [], "homodimer": [], "nonmass": [], "unmapped_touch": [], "zero_init": [],
+            "labelled_modifier": [], "rev_unbalanced": [], "reversible": []}
     for name, m in maps.items():
         if name not in rx:
             continue
@@ -146,10 +219,28 @@ def classify(case: dict) -> dict:
         if len(m) < tpl or any(not (0 <= i < n) for i in m):
             info["outside"].append(name)
         subs, prods = L.subs_prods(st)
-        if any(subs.count(c) > 1 and lv.get(c, 0) > 0 and c in args for c in set(subs)):
-            info["homodimer"].append(name)
-        varargs = sorted(a for a in args if a in base["vars"])
-        if fk != "FProd" or varargs != sorted(subs):
+        varargs = [a for a in args if a in base["vars"]]
+        if fk == "FProd":
+            sub_args = sorted(a for a in varargs if a in subs)
+            others = [a for a in varargs if a not in subs]
+            if sub_args != sorted(subs) or any(a in prods for a in others):
+                info["nonmass"].append(name)
+                continue
+            if any(subs.count(c) > 1 and lv.get(c, 0) > 0 for c in set(subs)):
+                info["homodimer"].append(name)
+            if any(lv.get(a, 0) > 0 for a in others):
+                info["labelled_modifier"].append(name)
+        elif fk in (L.REV1, L.REV2):
+            sa, pa, ks = L.rev_split(fk, args)
+            if sorted(sa) != sorted(subs) or sorted(pa) != sorted(prods) or any(k in base["vars"] for k in ks):
+                info["nonmass"].append(name)
+                continue
+            info["reversible"].append(name)
+            if any(side.count(c) > 1 and lv.get(c, 0) > 0 for side in (subs, prods) for c in set(side)):
+                info["homodimer"].append(name)
+            if not (tsl == tpl and sorted(m[:tpl]) == list(range(tpl))):
+                info["rev_unbalanced"].append(name)
+        else:
             info["nonmass"].append(name)
     for name, _fk, _args, st in base["rxns"]:
         if name not in maps and any(lv.get(c, 0) > 0 for c in st):
@@ -157,6 +248,17 @@ def classify(case: dict) -> dict:
     init = case["init"] or {}
     info["zero_init"] = [c for c in init if c in lv and lv[c] == 0 and c in base["vars"]]
     return info
+
+
+FINDING_OF = (("labelled_modifier", "c05-labelled-modifier"), ("homodimer", "c05-homodimer"), ("rev_unbalanced", "c05-reversible-unbalanced"))
+
+
+def finding_for(info: dict, known_ids) -> str | None:
+    """The recorded finding a failure of the dynamics clause on this case is attributed to (None: a VIOLATION)."""
+    for key, fid in FINDING_OF:
+        if info[key] and fid in known_ids:
+            return fid
+    return None
 
 
 def oracle_structure(case: dict, out, info: dict) -> list[tuple[str, str | None]]:
@@ -247,14 +349,16 @@ def oracle_structure(case: dict, out, info: dict) -> list[tuple[str, str | None]
     return bad
 
 
-def oracle_dynamics(case: dict, model, info: dict, states: list[dict[str, int]]) -> list[tuple[str, str | None]]:
+def oracle_dynamics(case: dict, model, info: dict, states: list[dict[str, int]], known_ids=None) -> list[tuple[str, str | None]]:
     """Summed isotopomer derivatives == base derivative at the totals (exact, integer states)."""
     if info["short"] or info["outside"] or info["nonmass"] or info["unmapped_touch"] or model is None:
         return []
+    if known_ids is None:
+        known_ids = {f["id"] for f in common.load_known_findings(PROP)}
     base, lv = case["base"], case["lv"]
     bm = L.build_base(base)
     bad = []
-    fid = "c05-homodimer" if info["homodimer"] else None
+    fid = finding_for(info, known_ids)
     for st in states:
         totals = {}
         for c in base["vars"]:
@@ -262,7 +366,8 @@ def oracle_dynamics(case: dict, model, info: dict, states: list[dict[str, int]])
         o1 = L.rhs_of(model, st)
         o2 = L.rhs_of(bm, totals)
         if o1[0] != "ok" or o2[0] != "ok":
-            bad.append((f"right-hand side not computable: labelled {o1}, base {o2}", None))
+            # (a labelled modifier of a mapped reaction keeps its base name in the dict form: nothing to evaluate)
+            bad.append((f"right-hand side not computable: labelled {o1}, base {o2}", fid if info["labelled_modifier"] else None))
             break
         lab = dict(zip(model.get_variable_names(), o1[1]))
         bas = dict(zip(bm.get_variable_names(), o2[1]))
@@ -299,7 +404,7 @@ def corr_file(cases: list[str]) -> str:
         + defs
         + "\nDefinition cases : list iso_case := "
         + common.clist(f"case_{i}" for i in range(len(cases)))
-        + ".\nDefinition mismatches := filter_idx (fun c => negb (check_iso (ext_bit_of gen_label_facts) (f_init_name gen_label_facts) c)) cases.\n"
+        + ".\nDefinition mismatches := filter_idx (fun c => negb (check_iso (ext_bit_of gen_label_facts) (f_repl gen_label_facts) (f_init_name gen_label_facts) c)) cases.\n"
         "Eval vm_compute in mismatches.\n"
     )
 
@@ -327,8 +432,10 @@ def check(run: Run) -> None:
     facts = gen()
     run.coverage["gen_facts"] = facts
     run.rule = (
-        "random base networks (2-5 compounds, 1-4 reactions: influx, efflux, uni, bi, split, coefficient 2, homodimer, additive "
-        "non-mass-action, derived parameters/variables, unlabelled bystanders) x label counts 0-3 x maps (permutations, identity, "
+        "random base networks (2-5 compounds, 1-4 reactions: influx, efflux, uni, bi, split, coefficient 2, homodimer, labelled / unlabelled "
+        "modifiers, reversible mass action written as one reaction (1-2 substrates, 1-2 products, homodimers on either side), additive "
+        "non-mass-action, derived parameters/variables, unlabelled bystanders; every 6th case a feed -> reversible -> drain network with equally "
+        "many positions on both sides and stoichiometries declared in shuffled order) x label counts 0-3 x maps (permutations, identity, "
         "duplicating, short, too short for the products, long, out-of-range, negative) x initial labels (int/list/invalid), plus EVERY "
         "map of the right length for small one-reaction shapes; right-hand sides at 2-3 integer states per built model. A case is "
         "non-trivial if at least one reaction is mapped; distinct by content"
@@ -339,7 +446,10 @@ def check(run: Run) -> None:
         "fact extractor harness/c05_label.py::extract_facts (fail-closed ast matcher + pinned shapes of the helpers)",
         "modelled, not verified: Model.add_* / get_right_hand_side (dxdt = sum coefficient*flux over the stoichiometry), Python dict "
         "insertion order (association lists), str indexing/slicing (py_index, firstn/skipn), itertools.product order",
-        "rate functions: mass action = product of all arguments (FProd); binary64 evaluation assumed exact on the small integers used",
+        "rate functions: mass action = product of all arguments (FProd), reversible mass action kf*S.. - kr*P.. (FRev m); binary64 evaluation "
+        "assumed exact on the small integers used",
+        "coq/label/ExpectedFacts.v is a hand-edited switch (expected form of the rate-argument renaming block), kept consistent with "
+        "known_findings.d/C05.json by tools/c05_switch.py; the general collapse statement for reversible laws is validated, not proved",
         "correspondence harness: literal printers, name parser, coqc output parser",
     ]
     rng = common.rng_for(run.seed, "c05")
@@ -349,10 +459,11 @@ def check(run: Run) -> None:
     for f in known.values():
         if "case" in f.get("witness", {}):
             cases.insert(0, f["witness"]["case"] | {"map_kinds": ["witness"]})
-    for _ in range(6000 if thorough else 700):
-        cases.append(gen_case(rng))
+    for i in range(6000 if thorough else 700):
+        cases.append(gen_rev_case(rng) if i % 6 == 5 else gen_case(rng))
 
-    dist = {"map_kinds": {}, "impl_outcomes": {}, "label_counts": {}, "judged_dynamics": 0, "outside_domain": 0, "rhs_errors": 0}
+    dist = {"map_kinds": {}, "impl_outcomes": {}, "label_counts": {}, "judged_dynamics": 0, "judged_dynamics_reversible": 0,
+            "judged_dynamics_with_modifier": 0, "outside_domain": 0, "rhs_errors": 0}
     coq_cases: list[str] = []
     coq_index: list[int] = []
     n_viol = 0
@@ -371,16 +482,20 @@ def check(run: Run) -> None:
         states = []
         if out[0] == "ok" and model is not None:
             names = [k for k, _ in out[1]["vars"]]
-            states = [gen_state(rng, names) for _ in range(3 if thorough else 2)]
+            states = [dict(x) for x in case.get("states", [])] + [gen_state(rng, names) for _ in range(3 if thorough else 2)]
             for st in states:
                 o = L.rhs_of(model, st)
                 if o[0] != "ok":
                     dist["rhs_errors"] += 1
                 rhs.append((st, o))
         bad = oracle_structure(case, out, info)
-        dyn = oracle_dynamics(case, model, info, states) if out[0] == "ok" else []
+        dyn = oracle_dynamics(case, model, info, states, set(known)) if out[0] == "ok" else []
         if out[0] == "ok" and not (info["short"] or info["outside"] or info["nonmass"] or info["unmapped_touch"]):
             dist["judged_dynamics"] += 1
+            if info["reversible"] and not info["rev_unbalanced"]:
+                dist["judged_dynamics_reversible"] += 1
+            if any(a in case["base"]["vars"] and a not in r[3] for r in case["base"]["rxns"] if r[0] in case["maps"] for a in r[2]):
+                dist["judged_dynamics_with_modifier"] += 1
         if info["outside"]:
             dist["outside_domain"] += 1
         for what, fid in bad + dyn:
